@@ -365,6 +365,39 @@ func c04gen(cw *caseWriter, tier string, r *rng) {
 		}
 	}
 	cw.stat("c04_snapshot_boundary_cases", m)
+	// three requests at one follower, everything written by the handler itself (so that a cache in front of the log store
+	// - every second stepper node has a real LogCache of two slots - holds what the handler stored): leader of term 1 stores
+	// 1..n; a leader of term 2 sends a conflicting entry at k+1 (the tail k+1..n goes); a leader of term 3 (the old one,
+	// re-elected) then names a previous entry j@1 inside the deleted tail, or the rewritten index: the follower holds neither
+	q := 0
+	for n := 3; n <= 7; n++ {
+		for k := 0; k < n-1; k++ {
+			for j := k + 1; j <= n; j++ {
+				if den > 1 && r.intn(3) != 0 {
+					continue
+				}
+				for rep := 0; rep < 2; rep++ { // once with, once without the LogCache
+					g := &nsGen{self: 1, trailing: 100, maxapp: 64, cfgtab: [][]srv{cfgSAB}}
+					g.term = 1
+					var e1 [][4]uint64
+					for i := 1; i <= n; i++ {
+						e1 = append(e1, entryOf(uint64(i), 1))
+					}
+					var pk uint64
+					if k > 0 {
+						pk = 1
+					}
+					ev1 := evAppend(1, 2, 2, 0, 0, e1, 0, 0, nil)
+					ev2 := evAppend(2, 3, 3, uint64(k), pk, [][4]uint64{entryOf(uint64(k+1), 2)}, 0, 0, nil)
+					ev3 := evAppend(3, 2, 2, uint64(j), 1, [][4]uint64{entryOf(uint64(j+1), 3)}, 0, 0, nil)
+					g.events = [][]uint64{ev1, ev2, ev3, evAppend(3, 2, 2, 0, 0, nil, 0, 0, nil)}
+					nsRun(cw, cw.tag("q"), g.encode(), c04monitor(cw))
+					q++
+				}
+			}
+		}
+	}
+	cw.stat("c04_truncate_then_stale_previous_entry_cases", q)
 }
 
 func runC04(cw *caseWriter, tier string, seed uint64) {
